@@ -71,6 +71,43 @@ def family():
     return c
 
 
+def window(rep):
+    """W: the validity window decided on the real statements of v4_check_presigned_url (props/C06win.py); a finding counts once the real
+    build, against the real clock, treats a reference-signed URL at the solver's offsets the same way."""
+    import time as _t
+    import C06win
+    import C07
+    from vlib import replay
+    t0 = _t.time()
+    rep.encoded("crates/s3s/src/ops/signature.rs", "v4_check_presigned_url: the block that reads the clock (window test), every path")
+    try:
+        findings, st = C06win.run(C07.load_program())
+    except Exception as e:      # rsx limits / unknown idiom => inconclusive, never a pass
+        rep.fail_inconclusive("C06 W (window on the real statements): %s" % e)
+        return
+    what = ("window: the clock block of v4_check_presigned_url falls through <=> signing time - 900 s <= now <= signing time + X-Amz-Expires, for every "
+            "now / signing time (ns, |.| < 2^62) and expiry (0..2^32 s); %d paths" % st["paths"])
+    if not findings:
+        rep.obligation(what, "rsx+z3 (LIA) on the statements of v4_check_presigned_url; time crate as a stated integer model", "holds",
+                       _t.time() - t0, queries=st["queries"])
+        return
+    for key, (text, w) in sorted(findings.items()):
+        if not w or not w.get("replayable"):
+            rep.fail_inconclusive("C06 W: %s: %s — the solver's witness %s cannot be replayed against the real clock" % (key, text, w))
+            continue
+        rq = A.v4_presigned(date_delta=w["date_delta_s"], expires=w["expires"])
+        out = replay.run_scenarios([{"config": sigprops.CFG, "request": rq}])[0]
+        o = sigprops.outcome(out)
+        rep.traces_validated += 1
+        rep.disagreements_checked += 1
+        if bool(o["accepted"]) != bool(w["expect_accept"]) and not o["panic"]:
+            cex = rep.save_cex("window_" + "".join(c if c.isalnum() else "_" for c in key), {"finding": key, "what": text, "witness": w, "request": rq, "observed": o})
+            res = rep.violation(key, "%s [real build, real clock: %s, status %s]" % (text, "accepted" if o["accepted"] else "refused", o["status"]), cex, confirmed=True)
+            rep.obligation(what, "rsx+z3 (LIA) on the statements of v4_check_presigned_url", res, _t.time() - t0, queries=st["queries"])
+        else:
+            rep.fail_inconclusive("C06 W: %s: %s — not reproduced on the real build (observed %s); the library model or the witness is wrong" % (key, text, o))
+
+
 def run(rep, tier):
     rep.encoded("crates/s3s/src/ops/signature.rs", "SignatureContext::check, v4_check, v4_check_presigned_url (all paths)")
     rep.encoded("crates/s3s/src/sig_v4/presigned_url_v4.rs", "parse_expires (Kani), PresignedUrlV4::parse (family)")
@@ -79,8 +116,9 @@ def run(rep, tier):
     C05.header_value_rule(rep, True)
     sigprops.check_paths(rep, "v4-presigned", "C06 paths")
     kspec.run_spec(rep, "C06", tier, budget_s=400)
+    window(rep)
     sigprops.run_family(rep, "C06", family(), label="presigned family")
-    rep.assume("SHA-256 / HMAC are uninterpreted in the solver queries; the window is decided by Kani on a reduced replay of the "
+    rep.assume("SHA-256 / HMAC are uninterpreted in the solver queries; the window is decided by rsx+z3 on the function's own statements (integer model of the time crate) and by Kani on a reduced replay of the "
                "statements of v4_check_presigned_url (one day, expiry < 10^5 s), the real function exceeded the solver (6.3 M variables)")
     rep.out("calendar arithmetic of the time crate outside the harness day; window boundaries to the second against the real clock "
             "(the family keeps minutes of margin)")
